@@ -1288,6 +1288,131 @@ theorem copy_apply_consistent (s : Store K F) (hw : WF s) (finfo : FieldInfo →
       have : (sstep o0 (.start (finfo fi))).2 ≠ none := by simp [sstep, he]
       exact (rejected_keeps_contents o0 (.start (finfo fi)) this).1
 
+/-- the appends `apply` performs, as storage operations -/
+def appendOps (fi' : FieldInfo) (ps : List (K × F)) : List (SOp K F) :=
+  ps.map (fun p => .append fi' (some p.1) p.2)
+
+theorem srun_cons (o : Store K F) (op : SOp K F) (ops : List (SOp K F)) :
+    srun o (op :: ops) = srun (sstep o op).1 ops := rfl
+
+/-- the loop of `apply` after the output has been opened IS a run of the storage state machine
+on the appends -/
+theorem applyLoop_writing_srun (s : Store K F) (hw : WF s) (fi : FieldInfo) (ht : s.template = some fi)
+    (finfo : FieldInfo → FieldInfo) :
+    ∀ (todo : List (Nat × F)) (o : Store K F), (∀ p ∈ todo, p.1 < s.frames.length) →
+      o.grid = some (finfo fi).grid → o.dataShape = some (finfo fi).shape →
+      applyLoop s finfo todo (some o) true =
+        (some (srun o (appendOps (finfo fi) (pairsOf s.times todo))), none) := by
+  intro todo
+  induction todo with
+  | nil => intro o _ _ _; simp [applyLoop, pairsOf, appendOps, srun]
+  | cons p todo ih =>
+    intro o hp hg hd
+    obtain ⟨i, nf⟩ := p
+    have hi : i < s.frames.length := hp (i, nf) (by simp)
+    obtain ⟨fi', hfi', hgf⟩ := getField_nat s hw i hi
+    rw [ht] at hfi'; cases hfi'
+    obtain ⟨ti, hti⟩ : ∃ t, s.times[i]? = some t :=
+      ⟨s.times[i]'(by rw [hw.1]; exact hi), List.getElem?_eq_getElem (by rw [hw.1]; exact hi)⟩
+    have hacc : (append o (finfo fi) (some ti) nf).2 = none :=
+      (append_accepted_iff o _ _ _).mpr ⟨Or.inr hg, hd⟩
+    have hready : (append o (finfo fi) (some ti) nf).1.grid = some (finfo fi).grid ∧
+        (append o (finfo fi) (some ti) nf).1.dataShape = some (finfo fi).shape := by
+      unfold append appendData
+      simp [hg, hd]
+    have hrec := ih (append o (finfo fi) (some ti) nf).1 (fun q hq => hp q (by simp [hq]))
+      hready.1 hready.2
+    unfold applyLoop
+    rw [hgf, hti]
+    simp only [if_true, outOrNew]
+    cases hap : append o (finfo fi) (some ti) nf with
+    | mk o3 e3 =>
+      rw [hap] at hacc hrec
+      simp only at hacc hrec
+      subst hacc
+      simp only
+      rw [hrec]
+      simp only [pairsOf, List.filterMap_cons, hti, Option.map_some, appendOps, List.map_cons,
+        srun_cons, sstep, hap]
+
+/-- the storage operations `apply(func, out=o0)` amounts to on `o0`: nothing for an empty
+source; otherwise `start_writing(transformed)` and, if that is accepted, one append per frame -/
+def applyOps (s : Store K F) (finfo : FieldInfo → FieldInfo) (newFrames : List F) (o0 : Store K F) :
+    List (SOp K F) :=
+  match s.template with
+  | none => []
+  | some fi =>
+    if s.frames.isEmpty then []
+    else .start (finfo fi) ::
+      (if (startWriting o0 (finfo fi)).2 = none then appendOps (finfo fi) (s.times.zip newFrames)
+       else [])
+
+/-- **`copy`/`apply` into an existing storage is a run of that storage's state machine** on
+`applyOps`; the error reported is the one of its `start_writing` -/
+theorem applyTo_some_srun (s : Store K F) (hw : WF s) (finfo : FieldInfo → FieldInfo)
+    (newFrames : List F) (hn : newFrames.length = s.frames.length) (o0 : Store K F) :
+    (applyTo s finfo newFrames (some o0)).1 = some (srun o0 (applyOps s finfo newFrames o0)) := by
+  by_cases hne : s.frames = []
+  · have ht : s.times = [] := by
+      have := hw.1; rw [hne] at this; simpa using this
+    have : applyOps s finfo newFrames o0 = [] := by
+      unfold applyOps; cases s.template <;> simp [hne]
+    rw [this]
+    unfold applyTo
+    simp [ht, applyLoop, srun]
+  · obtain ⟨fi, ht, _⟩ := template_present s hw hne
+    have hpos : 0 < s.frames.length := List.length_pos_iff.mpr hne
+    have hnf : newFrames ≠ [] := by intro h; rw [h] at hn; simp at hn; omega
+    obtain ⟨nf, nfs, rfl⟩ := List.exists_cons_of_ne_nil hnf
+    have hr : List.range s.times.length = 0 :: (List.range' 1 (s.times.length - 1)) := by
+      rw [List.range_eq_range']
+      have : s.times.length = (s.times.length - 1) + 1 := by rw [hw.1]; omega
+      conv_lhs => rw [this, List.range'_succ]
+    have hmem : ∀ p ∈ (List.range s.times.length).zip (nf :: nfs), p.1 < s.frames.length := by
+      intro p hp
+      have := (List.of_mem_zip hp).1
+      rw [List.mem_range, hw.1] at this; exact this
+    obtain ⟨fi', hfi', hgf⟩ := getField_nat s hw 0 hpos
+    rw [ht] at hfi'; cases hfi'
+    have hgf0 : getField s (0 : Int) = .ok (fi, s.frames[0]) := by simpa using hgf
+    obtain ⟨t0, hti⟩ : ∃ t, s.times[0]? = some t :=
+      ⟨s.times[0]'(by rw [hw.1]; exact hpos), List.getElem?_eq_getElem (by rw [hw.1]; exact hpos)⟩
+    have hops : applyOps s finfo (nf :: nfs) o0 = .start (finfo fi) ::
+        (if (startWriting o0 (finfo fi)).2 = none then
+          appendOps (finfo fi) (s.times.zip (nf :: nfs)) else []) := by
+      unfold applyOps; simp [ht, hne]
+    rw [hops, srun_cons]
+    simp only [sstep]
+    cases hsw : startWriting o0 (finfo fi) with
+    | mk o2 e2 =>
+      cases e2 with
+      | some e =>
+        simp only [reduceCtorEq, if_false, srun, List.foldl_nil]
+        unfold applyTo
+        rw [hr]
+        simp only [List.zip_cons_cons]
+        unfold applyLoop
+        simp only [Nat.cast_zero]
+        rw [hgf0, hti]
+        simp only [Bool.false_eq_true, if_false, outOrNew, hsw]
+      | none =>
+        simp only [if_true]
+        have hacc : (startWriting o0 (finfo fi)).2 = none := by rw [hsw]
+        obtain ⟨g1, g2, _⟩ := startWriting_accepted_ready o0 (finfo fi) hacc
+        rw [hsw] at g1 g2
+        have e1 := applyLoop_writing_srun s hw fi ht finfo
+          ((List.range s.times.length).zip (nf :: nfs)) o2 hmem g1 g2
+        rw [pairsOf_range] at e1
+        unfold applyTo
+        rw [hr] at e1 ⊢
+        simp only [List.zip_cons_cons] at e1 ⊢
+        unfold applyLoop at e1 ⊢
+        simp only [Nat.cast_zero] at e1 ⊢
+        rw [hgf0, hti] at e1 ⊢
+        simp only [if_true, outOrNew] at e1
+        simp only [Bool.false_eq_true, if_false, outOrNew, hsw]
+        rw [e1]
+
 end apply
 
 /-! ### the storage logic never looks into a frame (naturality in the frame type) -/
@@ -2386,6 +2511,297 @@ theorem world_run_refines (ops : List (Op K)) :
     cases project w sid op with
     | none => simp
     | some sop => simp [srun]
+
+/-! ### every storage of every reachable world is well formed -/
+
+theorem wf_construct {F : Type} (times : List K) (frames : List F) (tm : Option FieldInfo) (m : Mode)
+    (s' : Store K F) (h : construct times frames tm m = .ok s') (ht : frames ≠ [] → tm ≠ none) :
+    WF s' := by
+  unfold construct at h
+  split_ifs at h with hl
+  cases h
+  refine ⟨by simpa using hl, ?_, ?_⟩
+  · intro hne
+    simp only
+    cases tm with
+    | none => exact absurd rfl (ht hne)
+    | some fi => simp
+  · intro hd
+    cases tm with
+    | none => simp at hd
+    | some fi => exact ⟨fi, rfl, rfl⟩
+
+theorem wf_applyLoop {F : Type} (s : Store K F) (finfo : FieldInfo → FieldInfo) :
+    ∀ (todo : List (Nat × F)) (out : Option (Store K F)) (w : Bool) (o' : Store K F),
+      (∀ o, out = some o → WF o) → (applyLoop s finfo todo out w).1 = some o' → WF o' := by
+  intro todo
+  induction todo with
+  | nil =>
+    intro out w o' hout h
+    simp only [applyLoop] at h
+    exact hout o' h
+  | cons p todo ih =>
+    intro out w o' hout h
+    obtain ⟨i, nf⟩ := p
+    unfold applyLoop at h
+    cases hgf : getField s (i : Int) with
+    | error e => rw [hgf] at h; exact hout o' h
+    | ok r =>
+      obtain ⟨fi, f0⟩ := r
+      rw [hgf] at h
+      cases hti : s.times[i]? with
+      | none => rw [hti] at h; exact hout o' h
+      | some t =>
+        rw [hti] at h
+        simp only at h
+        have hnew : WF (outOrNew out (finfo fi)) := by
+          cases out with
+          | none => simp [outOrNew, WF]
+          | some o => exact hout o rfl
+        have h2 : ∀ (o2 : Store K F) (e2 : Option Err),
+            (if w = true then (outOrNew out (finfo fi), none) else
+              startWriting (outOrNew out (finfo fi)) (finfo fi)) = (o2, e2) → WF o2 := by
+          intro o2 e2 h2
+          split_ifs at h2
+          · cases h2; exact hnew
+          · have := wf_startWriting (outOrNew out (finfo fi)) (finfo fi) hnew
+            rw [h2] at this; exact this
+        cases hr2 : (if w = true then (outOrNew out (finfo fi), none) else
+              startWriting (outOrNew out (finfo fi)) (finfo fi)) with
+        | mk o2 e2 =>
+          rw [hr2] at h
+          have hw2 := h2 o2 e2 hr2
+          cases e2 with
+          | some e => simp only at h; cases h; exact hw2
+          | none =>
+            simp only at h
+            have hw3 := wf_append o2 (finfo fi) (some t) nf hw2
+            cases hap : append o2 (finfo fi) (some t) nf with
+            | mk o3 e3 =>
+              rw [hap] at h hw3
+              cases e3 with
+              | some e => simp only at h; cases h; exact hw3
+              | none =>
+                simp only at h
+                exact ih (some o3) true o' (by intro o ho; cases ho; exact hw3) h
+
+theorem wf_applyTo {F : Type} (s : Store K F) (finfo : FieldInfo → FieldInfo) (nf : List F)
+    (out : Option (Store K F)) (o' : Store K F) (hout : ∀ o, out = some o → WF o)
+    (h : (applyTo s finfo nf out).1 = some o') : WF o' := by
+  unfold applyTo at h
+  have key := wf_applyLoop s finfo ((List.range s.times.length).zip nf) out false
+  cases hl : applyLoop s finfo ((List.range s.times.length).zip nf) out false with
+  | mk ol el =>
+    rw [hl] at h key
+    cases el with
+    | some e => simp only at h; exact key o' hout h
+    | none =>
+      cases ol with
+      | some o => simp only at h; exact key o' hout h
+      | none => simp only at h; cases h; exact wf_new _
+
+/-- all storages of the world are well formed -/
+def World.AllWF (w : World K) : Prop := ∀ s ∈ w.stores, WF s
+
+theorem allwf_set (w : World K) (sid : Nat) (s' : Store K Nat) (h : w.AllWF) (hs : WF s') :
+    ({ w with stores := w.stores.set sid s' } : World K).AllWF := by
+  intro s hmem
+  rcases List.mem_or_eq_of_mem_set hmem with h1 | h1
+  · exact h s h1
+  · subst h1; exact hs
+
+theorem allwf_push (w : World K) (s' : Store K Nat) (h : w.AllWF) (hs : WF s') :
+    ({ w with stores := w.stores ++ [s'] } : World K).AllWF := by
+  intro s hmem
+  rcases List.mem_append.mp hmem with h1 | h1
+  · exact h s h1
+  · simp at h1; subst h1; exact hs
+
+theorem updStore_allwf (w : World K) (sid : Nat) (f : Store K Nat → Store K Nat × Option Err)
+    (h : w.AllWF) (hf : ∀ s, WF s → WF (f s).1) : (updStore w sid f).1.AllWF := by
+  intro s hmem
+  rw [updStore_stores] at hmem
+  cases hs : w.stores[sid]? with
+  | none => rw [hs] at hmem; exact h s hmem
+  | some s0 =>
+    rw [hs] at hmem
+    rcases List.mem_or_eq_of_mem_set hmem with h1 | h1
+    · exact h s h1
+    · subst h1; exact hf s0 (h s0 (List.mem_of_getElem? hs))
+
+/-- **well-formedness is preserved by every operation** (also `from_fields` and `poke`): in
+every reachable world every storage - also every derived one - has as many frames as times and a
+template whenever it stores something, so all reads of the read theorems succeed -/
+theorem allwf_step (w : World K) (op : Op K) (h : w.AllWF) : (step w op).1.AllWF := by
+  cases op with
+  | newField fi vals => exact h
+  | setField fid vals => simp only [step]; cases w.fields[fid]? <;> exact h
+  | newStore m => exact allwf_push w _ h (wf_new m)
+  | setMode sid m => exact updStore_allwf w sid _ h (fun s hs => hs)
+  | start sid fid =>
+    simp only [step]
+    cases w.fields[fid]? with
+    | none => exact h
+    | some p => exact updStore_allwf w sid _ h (fun s hs => wf_startWriting s p.1 hs)
+  | append sid fid t =>
+    simp only [step]
+    cases w.fields[fid]? with
+    | none => exact h
+    | some p => exact updStore_allwf _ sid _ h (fun s hs => wf_append s p.1 t _ hs)
+  | endW sid => exact updStore_allwf w sid _ h (fun s hs => hs)
+  | clear sid b => exact updStore_allwf w sid _ h (fun s hs => wf_clear s b hs)
+  | read sid i =>
+    simp only [step]
+    cases w.stores[sid]? with
+    | none => exact h
+    | some s => simp only; cases getField s i <;> exact h
+  | items sid =>
+    simp only [step]
+    cases w.stores[sid]? with
+    | none => exact h
+    | some s => simp only; cases Storage.items s <;> exact h
+  | slice sid a b =>
+    simp only [step]
+    cases w.stores[sid]? with
+    | none => exact h
+    | some s => simp only; cases getSlice s a b <;> exact h
+  | extractTimeRange sid r =>
+    simp only [step]
+    cases hst : w.stores[sid]? with
+    | none => exact h
+    | some s =>
+      simp only
+      cases hr : Storage.extractTimeRange s r with
+      | error e => exact h
+      | ok s' =>
+        apply allwf_push w s' h
+        have hws := h s (List.mem_of_getElem? hst)
+        unfold Storage.extractTimeRange at hr
+        simp only at hr
+        split at hr
+        · cases hr
+        · cases hr
+        · apply wf_construct _ _ _ _ s' hr
+          intro hne
+          have : s.frames ≠ [] := by
+            intro h0; rw [h0] at hne; simp at hne
+          obtain ⟨fi, hfi, _⟩ := template_present s hws this
+          rw [hfi]; simp
+  | extractField sid fid label =>
+    simp only [step]
+    cases hst : w.stores[sid]? with
+    | none => exact h
+    | some s =>
+      simp only
+      cases extractFieldPlan s fid label with
+      | error e => exact h
+      | ok r =>
+        obtain ⟨fi, i, tmpl⟩ := r
+        simp only
+        cases hb : extractFieldBuild s tmpl _ with
+        | error e => exact h
+        | ok s' =>
+          apply allwf_push _ s' h
+          unfold extractFieldBuild at hb
+          exact wf_construct _ _ _ _ s' hb (by simp)
+  | viewRead sid fid k =>
+    simp only [step]
+    cases w.stores[sid]? with
+    | none => exact h
+    | some s =>
+      simp only
+      cases viewCreate s fid with
+      | error e => exact h
+      | ok fidx =>
+        simp only
+        cases viewGet s fidx k with
+        | error e => exact h
+        | ok r => obtain ⟨fi, id, j, m⟩ := r; exact h
+  | viewItems sid fid =>
+    simp only [step]
+    cases w.stores[sid]? with
+    | none => exact h
+    | some s =>
+      simp only
+      cases viewCreate s fid with
+      | error e => exact h
+      | ok fidx => simp only; split <;> exact h
+  | apply sid f out =>
+    simp only [step]
+    cases hst : w.stores[sid]? with
+    | none => exact h
+    | some s =>
+      simp only
+      split_ifs
+      · exact h
+      · split
+        · exact h
+        · rename_i outS houtS
+          have hout : ∀ o, outS = some o → WF o := by
+            intro o ho
+            subst ho
+            cases out with
+            | none => simp at houtS
+            | some oid =>
+              simp only at houtS
+              cases hoid : w.stores[oid]? with
+              | none => rw [hoid] at houtS; simp at houtS
+              | some o0 =>
+                rw [hoid] at houtS
+                simp only [Option.map_some, Option.some.injEq] at houtS
+                cases houtS
+                exact h o (List.mem_of_getElem? hoid)
+          split
+          · rename_i o heq _
+            exact allwf_push _ o h (wf_applyTo s f.info _ outS o hout (by rw [heq]))
+          · rename_i o oid heq _
+            exact allwf_set _ oid o h (wf_applyTo s f.info _ outS o hout (by rw [heq]))
+          · rename_i o e oid heq _
+            exact allwf_set _ oid o h (wf_applyTo s f.info _ outS o hout (by rw [heq]))
+          · exact h
+          · exact h
+  | fromFields times fids m =>
+    simp only [step]
+    split
+    · exact h
+    · exact h
+    · split_ifs
+      · exact h
+      · exact h
+      · split
+        · exact h
+        · next s' hs' => exact allwf_push w s' h (wf_construct _ _ _ _ s' hs' (by simp))
+  | poke sid i vals =>
+    simp only [step]
+    cases w.stores[sid]? with
+    | none => exact h
+    | some s => simp only; cases s.frames[i]? <;> exact h
+  | fromCollection sids label rtol atol =>
+    simp only [step]
+    split
+    · exact h
+    · exact allwf_push w _ h (wf_new _)
+    · split
+      · exact h
+      · split
+        · exact h
+        · split
+          · exact h
+          · split
+            · exact h
+            · split_ifs
+              · exact h
+              · split
+                · exact h
+                · next s' hs' => exact allwf_push _ s' h (wf_construct _ _ _ _ s' hs' (by simp))
+
+theorem allwf_run (ops : List (Op K)) : ∀ w : World K, w.AllWF → (run w ops).AllWF := by
+  induction ops with
+  | nil => intro w h; exact h
+  | cons op ops ih => intro w h; exact ih _ (allwf_step w op h)
+
+theorem allwf_empty : (World.empty : World K).AllWF := by
+  intro s hs; simp [World.empty] at hs
 
 /-! ### derived storages in the world: what they hold when they are created -/
 
